@@ -241,7 +241,7 @@ def rule_random(fx, rep):
                 if isinstance(v, tuple) and v and v[0] == 'diverges':
                     okm = False
                     break
-                lits = TT.path_literals(pth_)
+                lits = TT.path_literals_add(pth_)
                 if [l for l in lits if l[0] != kzP] or not isinstance(v, Lin) or not v.atoms() <= {'P'}:
                     okm = False
                     break
